@@ -175,6 +175,11 @@ class VerifyAttrs(object):
                 intent = "inout"
             # XXX - Do hidden arguments need intent?
         else:
+            if not isinstance(intent, str):
+                raise RuntimeError(
+                    "intent attribute of argument '{}' must have a value: "
+                    "+intent(in), +intent(out) or +intent(inout), not {!r}"
+                    .format(arg.name, intent))
             intent = intent.lower()
             if intent in ["in", "out", "inout"]:
                 meta["intent"] = intent
@@ -250,7 +255,7 @@ class VerifyAttrs(object):
                 )
             try:
                 attrs["rank"] = int(attrs["rank"])
-            except ValueError:
+            except (ValueError, TypeError):
                 raise RuntimeError(
                     "'rank' attribute must have an integer value, not '{}'"
                     .format(attrs["rank"])
@@ -482,6 +487,11 @@ class VerifyAttrs(object):
 
         dim = attrs["dimension"]
         if dim:
+            if not isinstance(dim, str):
+                raise RuntimeError(
+                    "dimension attribute of '{}' must have a value in parens, "
+                    "for example +dimension(n), not {!r} at line {}"
+                    .format(ast.name, dim, node.linenumber))
             try:
                 declast.check_dimension(dim, metaattrs)
             except RuntimeError:
@@ -2011,6 +2021,11 @@ def check_implied_attrs(context, decls):
     for decl in decls:
         expr = decl.attrs["implied"]
         if expr:
+            if not isinstance(expr, str):
+                raise RuntimeError(
+                    "{}:implied attribute of argument '{}' must have an expression "
+                    "in parens, for example +implied(size(array)), not {!r}"
+                    .format(context.linenumber, decl.name, expr))
             check_implied(context, expr, decls)
 
 
